@@ -67,6 +67,13 @@ CLAIMED["C13"] = {
   "technique": "seeded model-based history search (deterministic simulation, single actor) with an independent rotation-geometry oracle, a x3 ledger and before/after state digests",
 }
 
+CLAIMED["C02"] = {
+  "text": "Seeded search over composition-edit histories (weakest fit: the laws are pointwise, the history selects the states) on generated hex cores incl. third-core models with the cut centre assembly: 4-30 edits per run (setNumberDensity, updateNumberDensities, setNumberDensities, changeNDensByFactor, setMassFrac, addMass, setMass, removeMass) at component / block / assembly / core level. After every edit: the edit's own read-back law (requested value read back at the same level, every other nuclide unchanged; mass-fraction edits keep total density and the others' proportions) and, from per-component primitives, mass = density x volume / symmetry factor, mass / volume / atoms additivity at block, assembly and core level, nuclide-list and element selections, mass fractions summing to one and equal to mass ratios, and the density <-> mass-fraction conversions being mutual inverses. Sampling, not proof.",
+  "design_ref": "DESIGN.md §4 (C02)",
+  "note": "Trusted: the ledger arithmetic in worlds/c02.py; atomic weights and Avogadro's constant come from armi's tables (C19's subject). 1e-9 relative on sums.",
+  "technique": "seeded model-based history search (deterministic simulation, single actor); composition ledger and additivity laws evaluated after every edit",
+}
+
 NA = {
  "C07": "pure function of (grid, index): no event order, clock, I/O or fault to simulate; exhaustive enumeration over N rings is the right tool, not simulation (DESIGN.md §6)",
  "C08": "pure functions of (grid, cell, k) and of a block's contents; rotations appear only as workload in the simulated runs (DESIGN.md §6)",
